@@ -235,9 +235,10 @@ class Shaper(object):
             self._launch_class_profiler(verbose=verbose)
         log_msg(verbose=verbose,
                 msg="Building_output...")
+        if output_file is not None:
+            AbstractProfileSerializer(self._profile).write_profile_to_file(target_file=output_file)
         if string_output:
             return AbstractProfileSerializer(self._profile).get_string_representation()
-        return AbstractProfileSerializer(self._profile).write_profile_to_file(target_file=output_file)
 
     def shex_graph(self, string_output=False,
                    output_file=None,
